@@ -41,6 +41,14 @@ the Lean model):
   code says 6, `every` says 4).  The oracle is strict where the three agree; where they differ it accepts the map of any
   one of them (and then uses that reading for all other clauses), so it never fails on a defensible behaviour.  The
   model mirrors `stored`; C02.all_calls_reading_fails_unordered records the difference to `every`.
+* `Part.quarter_durations(start, end)` (round 5) is a second public view of "the divisions in force": its rows lie inside
+  [start, end), are in time order, carry the duration quarter_duration_map returns at their time, and no change of the
+  quarter duration inside the bounds is missing (redundant stored entries may or may not be listed).
+* a first measure shorter than a bar by no more than numpy.isclose tolerates (1e-8 + 1e-5 bar; fix C02-3 made the test
+  tolerant because binary64 sums cannot tell such lengths apart reliably) may be taken for a pickup or for a full bar; this
+  needs more than 10^5 divisions per bar (cases of kind `near`).
+* the wrapper partitura.utils.generic.interp1d called directly (kind `lin`): the oracle only states what it documents - the
+  interpolant passes through its knots, one knot gives a constant function, the result has the argument's shape.
 * two parts of one score (same quarter durations, signatures, beat mode; different extents) are checked as parts; the
   difference of their maps at common positions is only compared with the model (C02.origin_common_across_parts: the
   constant shift2 - shift1) - the statement itself says nothing about it.
@@ -56,23 +64,41 @@ from core import Eval
 PROPERTY = "C02"
 DRIVER = "drv_c02"
 PROPS = ["PartituraModel.Props.C02", "PartituraModel.Props.C02Args", "PartituraModel.Props.C02Musical",
-         "PartituraModel.Props.C02Origin", "PartituraModel.Props.C02History", "PartituraModel.Props.C02Calls"]
+         "PartituraModel.Props.C02Origin", "PartituraModel.Props.C02History", "PartituraModel.Props.C02Calls",
+         "PartituraModel.Props.C02Scipy", "PartituraModel.Props.C02Source"]
 TRUSTED = [
-    "scipy.interpolate.interp1d kind='linear' (NaN outside the knot range, left-searchsorted segment) and kind='previous' "
-    "with fill_value=(y0,yN): modelled as Model.TimeMap.interp / prevValue",
+    "numpy primitives below the interpolation stack, modelled as small Lean functions (Model/TimeMapScipy.lean): np.searchsorted "
+    "/ the binary search of np.interp on a SORTED array = length of the leading run `< x` resp. `<= x` (searchLeft / searchRight), "
+    "np.argsort(kind='mergesort') = stable insertion sort (sortKnots), np.clip, and `nextafter(a, -inf) < b iff a <= b` for "
+    "binary64 (the shifted knots of kind='previous').  Everything ABOVE them is modelled as written - "
+    "partitura.utils.generic.interp1d, scipy's interp1d constructor / _evaluate / _check_bounds, the branch structure of "
+    "np.interp, _call_linear, _call_previousnext, the duplication of a single entry in quarter_duration_map - proved equal to the "
+    "recursive interp / prevValue of the other theorems on every well-formed part (C02.linear_path_irrelevant: both of scipy's "
+    "linear code paths, whatever segment they use at a knot; fwdS_eq_fwd, invS_eq_inv, qdMapS_eq_qdMap) and run against the real "
+    "functions (requests bm qm ibm iqm qdm rt a* knots through the as-written model, n* hmap diff through the recursive one, "
+    "lin = the wrapper called directly on sorted / unsorted / repeated / single knots)",
     "numpy/scipy broadcasting: np.asarray(argument) keeps the shape, a python/numpy scalar becomes 0-d, the interpolator works "
     "element by element - modelled as Model.TimeMap.Nested.map (callMap / callQD); compared on scalars, lists, tuples, integer "
-    "arrays, 2-D arrays and empty sequences",
+    "arrays, 2-D arrays and empty sequences; NaN / +inf / -inf elements as Model.TimeMap.Arg (NaN compares false with both "
+    "bounds, searchsorted puts it last)",
     "binary64 rounding of the cumulative sums and of the interpolation: the model is exact, the implementation is compared "
-    "within 1e-9 relative; the repaired pickup test treats lengths within numpy.isclose of a full bar as a full bar, the "
-    "model compares exactly (the two differ only for divisions beyond ~1e7)",
+    "within 1e-9 relative.  The np.isclose guard of the repaired pickup test (fix C02-3) is modelled exactly on rationals with "
+    "the tolerances regenerated from the source / numpy (Gen.C02.pickupTol); it changes the result only when the first measure "
+    "is shorter than a bar by less than 1e-8 + 1e-5 bar, i.e. for bars of more than 10^5 divisions (C02.notNearBar_iff, "
+    "tolerance_bites_at_huge_divisions); such parts are generated (kind `near`) and there the oracle accepts either origin",
     "the TimePoint list of Part.add (property C01) is modelled as a sorted set of times (Model.TimeMap.hstep); the state "
     "_time_interpolator reads (number of points, first/last point, _quarter_times/_quarter_durations, signatures with their "
     "musical beats in iter_all order, first measure at the first point, musical flag) is computed by the model from the "
     "edit/query history and compared exactly with the real object (request `hist`), and the maps of the model-built part are "
     "compared at the key points (request `hmap`); the other requests feed the model with the state read off the real object",
-    "inverse maps are compared with the model only strictly inside the image (1e-9 away from both ends); at the ends the "
-    "oracle alone judges inv(fwd(t))",
+    "inverse maps at ARBITRARY ordinates are compared with the model strictly inside the image (a float that is not the "
+    "implementation's own knot value may fall outside by one ulp: inv_beat_map(float(Fraction(-5, 3))) is NaN at the first point "
+    "of a 6/8 pickup part although inv_beat_map(beat_map(0)) is 0.0); the ends of the image are compared through the round trip "
+    "inv(fwd(x)) at every key point (request rt), where np.interp copies the stored knot (C02.np_copies_at_key_points, inv_at_ends)",
+    "harness/translate_c02.py reads the flags of the four public properties, the initial values of the carry loop, the beat-"
+    "factor and bar-length expressions, the pickup tolerance, Part.__init__ and the wrapper's keyword defaults from the live "
+    "source by ast (Gen/C02Source.lean, theorems of Props/C02Source.lean); locals may be renamed and expressions rewritten "
+    "algebraically (proved with `ring`), another statement structure stops those theorems from building",
 ]
 PARTIAL = [
     "origin_plain_partial / origin_pickup_partial: zero at the first time point (resp. at the end of the pickup measure) holds "
@@ -83,6 +109,10 @@ PARTIAL = [
     "(built_first_key_zero).  The statement's wording therefore fails for late-starting parts: open finding F-C02-1, negation "
     "proved at the witness (origin_late_start_counterexample, origin_late_pickup_counterexample); it is kept because all parts "
     "of a score share the origin (origin_common_across_parts, built_common_origin)",
+    "the maps AS WRITTEN (fwdS / invS) equal the maps of the theorems under `tolInactiveB` (the first measure is not within "
+    "numpy.isclose of a full bar - decidable, true below 10^5 divisions per bar); where the guard bites the code puts zero at the "
+    "first time point although the measure is (a few millionths) short: tolerance_bites_at_huge_divisions, accepted as the "
+    "documented repair C02-3",
     "musical beats are positive integers (what the docstring calls 'the number of musical beats'); non-integer table values "
     "are not modelled or generated",
     "set_quarter_duration: the model mirrors the list surgery; proved: the lists stay strictly increasing, positive and start "
@@ -93,7 +123,9 @@ PARTIAL = [
     "reading 'every call counts' holds for ascending histories and histories without such a call "
     "(table_represents_all_calls_ascending / _of_recorded) and fails otherwise (all_calls_reading_fails_unordered); the "
     "TimePoint.quarter attributes and the cached Part._quarter_map the call also updates are property C01's subject",
-    "NaN / infinite ARGUMENTS are not generated (quarter_duration_map(nan) returns the last value)",
+    "the one-knot branch of generic.interp1d is modelled for scalar and 1-d arguments (the five maps never reach it: fewer than "
+    "two time points are answered by two lambdas, a single quarter duration is duplicated); for a 2-d argument it returns a 1-d "
+    "result - observed, outside the statement (measure_map is C10's)",
     "two time signatures or two measures starting at the same time are not generated (iteration order is C10's subject)",
     "non-positive divisions or signature numbers (WF / ValidOp fail) are outside the theorems and the generator",
 ]
@@ -108,19 +140,31 @@ RULE = ("real partitura.score.Part objects built through Part(), set_quarter_dur
         "same times, on and off the grid); half of the parts are built by a random "
         "interleaving of their edits (the quarter-duration calls in their call order) with warm-up queries of all five maps and "
         "with gen_score.warm_readers on the half-built part; one case in eight is a pair of parts of one score (same "
-        "durations/signatures, different extents); every map is called on every integer position as an array and as scalars "
-        "and on 6-9 arguments of other shapes (list, tuple, int array, 2-D, empty, at change points and outside the range); "
+        "durations/signatures, different extents); every map is called on every integer position as an array and as scalars, "
+        "on 6-9 arguments of other shapes (list, tuple, int array, 2-D, empty, at change points and outside the range) and on "
+        "NaN / +inf / -inf; inv(fwd(x)) at every key point and just outside; quarter_durations(start, end) for nine bound "
+        "combinations; the knot arrays of the returned interpolators.  Interleaved (own generator, the sample of parts is "
+        "unchanged): one direct call of partitura.utils.generic.interp1d per three parts (1-7 knots, sorted / reversed / shuffled, a "
+        "repeated abscissa, float64 / int64 / float32 ordinates = both of scipy's linear code paths, kind linear / previous, "
+        "default / tuple fill values, queries at, between and outside the knots, NaN and infinities) and one part in ten "
+        "with 10^6-10^7 divisions per bar whose first measure is a few divisions short of a bar (inside / outside "
+        "numpy.isclose), full or overfull; "
         "distinct = distinct structural description incl. the history; non-trivial = at least two time points")
 LEVEL_TEXT = ("Lean 4 theorems (all knot lists, all rationals, all histories - by induction over the key-point list resp. the "
-              "edit history) about an executable model of Part._time_interpolator, the four maps, quarter_duration_map, the "
-              "musical-beat switches with arbitrary user tables, set_quarter_duration under arbitrary call histories and the "
-              "first/last time point "
-              "bookkeeping; every part reachable through the API is proved well formed, so the theorems apply to it without "
-              "side conditions.  The model is run against the real implementation on generated parts at every integer "
-              "position (arrays, scalars and other shapes), the state the model computes from the edit/query history is "
-              "compared exactly with the real object, and an independent Fraction oracle recomputes the statement's value on "
-              "the implementation's outputs.")
-SEARCH_LIMIT = 3000
+              "edit history) about an executable model of Part._time_interpolator, the four maps, quarter_duration_map, "
+              "quarter_durations, the musical-beat switches with arbitrary user tables, set_quarter_duration under arbitrary call "
+              "histories and the first/last time point bookkeeping; the interpolation stack (partitura's wrapper, scipy's "
+              "constructor, np.interp / _call_linear / _call_previousnext, bounds fill, pickup tolerance) is modelled as written "
+              "and proved equal to the simple recursive maps on every well-formed part, so the statement is proved for the code "
+              "as written (C02.property_as_written); every part reachable through the API is proved well formed, so the "
+              "theorems apply to it without side conditions other than two time points and a first bar that is not within "
+              "rounding tolerance of a full one.  Literal data of the source (flags of the public properties, initial values, "
+              "factor and bar-length expressions, tolerance, defaults) is regenerated from the live source on every run.  The "
+              "model is run against the real implementation on generated parts at every integer position (arrays, scalars, "
+              "other shapes, non-finite values), the state the model computes from the edit/query history is compared exactly "
+              "with the real object, and an independent Fraction oracle recomputes the statement's value on the implementation's "
+              "outputs.")
+SEARCH_LIMIT = 4300
 
 DIVS = [1, 2, 3, 4, 5, 6, 7, 8, 9, 10, 12, 16, 24, 48, 96, 480, 960]
 SMALL_DIVS = [1, 2, 3, 4, 5, 6, 7, 8, 9, 10, 12, 16, 24]
@@ -454,7 +498,16 @@ def cases(rng, tier):
     for t in (0, 7):
         for what in ("ts", "note", "empty"):
             yield {"kind": "single", "t": t, "what": what, "q0": 4}
+    # the direct calls of the wrapper and the almost-full first bars draw from their own generator (seeded from the state
+    # of `rng` without consuming it), interleaved with the parts: the sample of parts is the one of the earlier rounds
+    import random as _random
+
+    aux = _random.Random(str(rng.getstate()[1][:16]))
     for i in range(n):
+        if i % 3 == 0:
+            yield gen_lin(aux)
+        if i % 10 == 0:
+            yield gen_near(aux)
         if i % 8 == 7:
             d = gen_exact_bar(rng)
         elif i % 8 == 3:
@@ -782,7 +835,204 @@ def _nanlist(vals):
 def evaluate(d):
     if d.get("kind") == "pair":
         return evaluate_pair(d)
+    if d.get("kind") == "lin":
+        return evaluate_lin(d)
+    if d.get("kind") == "near":
+        return evaluate_near(d)
     return _eval_part(d)[0]
+
+
+# ------------------------------------------------------------------ first measures that are ALMOST a full bar
+ISCLOSE_RTOL, ISCLOSE_ATOL = F(1, 10 ** 5), F(1, 10 ** 8)  # numpy's defaults; the model reads them from Gen/C02Source.lean
+
+
+def gen_near(rng):
+    """huge divisions, one signature, a first measure a few divisions short of (or exactly, or beyond) a full bar: the
+    pickup test of the repaired code (fix C02-3) ignores a shortfall within numpy.isclose of the bar; the shortfall is
+    chosen clearly inside (<= 0.3 tolerance) or clearly outside (>= 3 tolerances) of it"""
+    b, bt = rng.choice([(4, 4), (3, 4), (6, 8), (2, 2), (12, 8), (5, 4), (9, 8), (2, 4)])
+    q0 = rng.choice([250000, 500000, 1000000, 2000000, 3000000])
+    while (b * 4 * q0) % bt:
+        q0 += 1
+    L = b * 4 * q0 // bt
+    mode = rng.choice(["notated", "musical", "musical-user"])
+    tbl = {} if mode != "musical-user" else {"%d/%d" % (b, bt): _mb_value(rng, b)}
+    tol_divs = float(ISCLOSE_RTOL) * L  # the relative part, in divisions (the same in every unit)
+    how = rng.choice(["inside", "inside", "outside", "outside", "full", "over"])
+    if how == "inside":
+        short = max(1, int(rng.uniform(0.02, 0.3) * tol_divs))
+    elif how == "outside":
+        short = int(rng.uniform(3, 30) * tol_divs) + 1
+    elif how == "full":
+        short = 0
+    else:
+        short = -rng.randint(1, 5)
+    return {"kind": "near", "q0": q0, "sig": [b, bt], "short": short, "mode": mode, "tbl": tbl, "how": how,
+            "probe": [rng.randint(1, L - short - 1), rng.randint(L - short + 1, 2 * L - short - 1)]}
+
+
+def evaluate_near(d):
+    ev = Eval()
+    b, bt = d["sig"]
+    q0 = d["q0"]
+    L = b * 4 * q0 // bt
+    e1 = L - d["short"]
+    last = e1 + L
+    ops = [["ts", 0, b, bt]] + ([] if d["mode"] == "notated" else [["mus", d["tbl"]]])
+    dp = {"kind": "part", "q0": q0, "first": 0, "last": last, "qd": [], "ops": ops, "measures": [[0, e1], [e1, last]],
+          "notes": [[0, last]], "mode": d["mode"], "halves": []}
+    try:
+        p = build(dp)
+        head = part_tokens(p, dp)
+        maps = {"bm": p.beat_map, "qm": p.quarter_map, "ibm": p.inv_beat_map, "iqm": p.inv_quarter_map}
+    except Exception as e:
+        ev.oracle.append("raised: building the part / its maps: %r" % (e,))
+        return ev
+    sp = Spec(dp)
+    xs = [0, e1, last] + d["probe"] + [F(2 * d["probe"][0] + 1, 2), -1, last + 1]
+    for nm in ("bm", "qm"):
+        unit = "quarter" if nm == "qm" else "beat"
+        rate = sp.rate(0, unit)  # one quarter duration, one signature: the same everywhere
+        s0 = sp.ts[0]
+        normal = F(s0[1] * 4, s0[2]) if unit == "quarter" else F(s0[3] if sp.musical else s0[1])
+        gap = normal - e1 * rate
+        try:
+            arr = _arr(maps[nm], xs)
+            sca = [float(maps[nm](float(x))) for x in xs]
+        except Exception as e:
+            ev.requests.append("%s %s %s" % (nm, head, W.lst(W.q, xs)))
+            ev.impl.append("err")
+            ev.oracle.append("raised: %s: %r" % (nm, e))
+            continue
+        ev.requests.append("%s %s %s" % (nm, head, W.lst(W.q, xs)))
+        ev.impl.append(("@approx", _nanlist(arr), 1e-9))
+        if any(not _same(u, v, 0.0) for u, v in zip(arr, sca)):
+            ev.oracle.append("scalar-vs-array: %s on %r: %r as an array, %r as scalars" % (nm, xs, arr, sca))
+        scale = float(last * rate)
+        for x, v in list(zip(xs, arr))[:6]:
+            if not close(v - arr[0], x * rate, scale):
+                ev.oracle.append("exact: %s(%s) - %s(0) = %r, the quarter duration and signature in force give %s" % (
+                    nm, x, nm, v - arr[0], x * rate))
+                break
+        at_start, at_end = close(arr[0], 0, scale), close(arr[1], 0, scale)
+        if gap <= 0:
+            want, ok = "the first time point (the first measure is not shorter than a bar)", at_start
+        elif gap > ISCLOSE_ATOL + ISCLOSE_RTOL * normal:
+            want, ok = "the end of the pickup measure (start of the first full measure)", at_end
+        else:  # shorter than a bar, but by less than binary64 arithmetic can be trusted to tell: either is defensible
+            want, ok = "the first time point or the end of the first measure", at_start or at_end
+        if not ok:
+            ev.oracle.append("origin: %s(0) = %r, %s(%d) = %r but zero must lie at %s" % (nm, arr[0], nm, e1, arr[1], want))
+        inv = "i" + nm
+        try:
+            back = _arr(maps[inv], arr[:6])
+            for x, bk in zip(xs[:6], back):
+                if not (bk == bk and abs(bk - float(x)) <= 1e-6 * max(1.0, abs(float(x)))):
+                    ev.oracle.append("inverse: %s(%s(%s)) = %r" % (inv, nm, x, bk))
+                    break
+            ev.requests.append("rt %s %s %s" % (nm, head, W.lst(W.q, xs)))
+            ev.impl.append(("@approx", _nanlist([float(maps[inv](maps[nm](float(x)))) for x in xs]), 1e-7))
+        except Exception as e:
+            ev.oracle.append("raised: %s: %r" % (inv, e))
+    ev.key = "near|%d|%r|%d|%s|%r" % (q0, d["sig"], d["short"], d["mode"], d["tbl"])
+    ev.info = {"near": d["how"]}
+    return ev
+
+
+# ------------------------------------------------------------------ the interpolation wrapper called directly
+def gen_lin(rng):
+    """knots for partitura.utils.generic.interp1d: 1-7 knots, abscissae sorted or not (scipy sorts them, stably),
+    dyadic values (exact in float32 and float64), a repeated abscissa now and then (numpy path and `previous` only -
+    scipy's own linear code divides by the width of the segment), y as float64 / int (-> np.interp) or float32
+    (-> scipy's _call_linear); queries at the knots, between them, at the ends, outside, on a grid"""
+    n = rng.choice([1, 1, 2, 2, 3, 4, 5, 7])
+    den = rng.choice([1, 1, 2, 4, 8])
+    kind = rng.choice(["l", "l", "l", "p"])
+    ydt = rng.choice(["f8", "f8", "i8", "f4"])
+    xs = rng.sample(range(-8 * den, 24 * den), n)
+    dup = n >= 3 and rng.random() < 0.25 and (kind == "p" or ydt != "f4")
+    if dup:
+        xs[rng.randrange(1, n)] = xs[0]
+    order = rng.choice(["sorted", "sorted", "shuffled", "reversed"])
+    if order == "sorted":
+        xs.sort()
+    elif order == "reversed":
+        xs.sort(reverse=True)
+    ys = [rng.randint(-40, 40) * (1 if ydt == "i8" else den) for _ in xs]
+    if rng.random() < 0.4:
+        ys.sort()
+    fill = None
+    if kind == "p" or rng.random() < 0.25:
+        fill = "ends" if rng.random() < 0.6 else [rng.randint(-5, 5), rng.randint(-5, 5)]
+    lo, hi = min(xs), max(xs)
+    q = list(xs) + [lo - den, hi + den, lo - 1, hi + 1] + [rng.randint(lo - 2, hi + 2) for _ in range(6)]
+    q += [2 * a + 1 for a in xs[:3]]  # halves (in units of 1/(2*den))
+    return {"kind": "lin", "den": den, "xs": xs, "ys": ys, "ydt": ydt, "ik": kind, "fill": fill, "order": order,
+            "q2": [2 * a for a in q[: len(xs) + 10]] + q[len(xs) + 10:], "scalar": rng.random() < 0.3}
+
+
+def evaluate_lin(d):
+    """generic.interp1d(x, y, kind=..., fill_value=...) against Model.TimeMap.genericInterp1d; the oracle only states
+    what the wrapper documents: the interpolant passes through its knots (distinct abscissae), one knot gives the
+    constant function, the result has the shape of the argument"""
+    from partitura.utils.generic import interp1d
+
+    ev = Eval()
+    den = d["den"]
+    x = np.array([F(a, den) for a in d["xs"]], dtype=float)
+    ydt = {"f8": np.float64, "i8": np.int64, "f4": np.float32}[d["ydt"]]
+    y = np.array([float(F(b, den)) if d["ydt"] != "i8" else b for b in d["ys"]], dtype=ydt)
+    yq = [F(b, den) if d["ydt"] != "i8" else F(b) for b in d["ys"]]
+    xq = [F(a, den) for a in d["xs"]]
+    qs = [F(a, 2 * den) for a in d["q2"]]
+    nonfinite = [float("nan"), float("inf"), float("-inf")]
+    kw = {}
+    kind = "previous" if d["ik"] == "p" else "linear"
+    fb = fa = None
+    if d["fill"] == "ends":
+        order = sorted(range(len(xq)), key=lambda i: xq[i])  # stable, like mergesort
+        fb, fa = yq[order[0]], yq[order[-1]]
+        kw["fill_value"] = (float(fb), float(fa))
+    elif d["fill"] is not None:
+        fb, fa = F(d["fill"][0]), F(d["fill"][1])
+        kw["fill_value"] = (float(fb), float(fa))
+    req = "lin %d %s %s %s %s %s" % (0 if d["ydt"] == "f4" else 1, d["ik"], W.q(fb) if fb is not None else "-",
+                                    W.q(fa) if fa is not None else "-",
+                                    W.lst(lambda k: "%s %s" % (W.q(k[0]), W.q(k[1])), list(zip(xq, yq))),
+                                    " ".join([str(len(qs) + 3)] + [W.q(v) for v in qs] + ["nan", "inf", "-inf"]))
+    try:
+        with np.errstate(all="ignore"):
+            f = interp1d(x, y, kind=kind, **kw)
+            arg = np.array([float(v) for v in qs] + nonfinite)
+            out = np.asarray(f(arg), dtype=float)
+            if out.shape != arg.shape:
+                ev.oracle.append("interp-wrapper: result of shape %r for an argument of shape %r" % (out.shape, arg.shape))
+            got = [float(v) for v in out.ravel()]
+            if d["scalar"]:
+                for v, g in list(zip(qs, got))[:4]:
+                    r = f(float(v))
+                    if np.shape(r) != () or not _same(float(r), g, 0.0):
+                        ev.oracle.append("scalar-vs-array: interp1d(...)(%s) = %r as scalar, %r in an array" % (v, r, g))
+                        break
+        ev.requests.append(req)
+        ev.impl.append(("@approx", _nanlist(got), 1e-9))
+        if len(set(xq)) == len(xq):
+            for v, g in zip(qs, got):
+                if len(xq) == 1 and g != float(yq[0]):
+                    ev.oracle.append("interp-wrapper: one knot (%s, %s) but the function is %r at %s" % (xq[0], yq[0], g, v))
+                    break
+                if len(xq) > 1 and v in xq and not close(g, yq[xq.index(v)]):
+                    ev.oracle.append("interp-wrapper: the %s interpolant through %r is %r at the knot %s" % (
+                        kind, list(zip(xq, yq)), g, v))
+                    break
+    except Exception as e:
+        ev.requests.append(req)
+        ev.impl.append("err")
+        ev.oracle.append("raised: generic.interp1d(%r, %r, kind=%r): %r" % (x.tolist(), y.tolist(), kind, e))
+    ev.key = "lin|%r|%r|%s|%s|%r" % (d["xs"], d["ys"], d["ydt"], d["ik"], d["fill"])
+    ev.info = {"lin": "%s/%s/%s%s" % (kind, "np.interp" if d["ydt"] != "f4" or kind == "previous" else "_call_linear",
+                                     d["order"], "/dup" if len(set(xq)) < len(xq) else "")}
+    return ev
 
 
 def _same(a, b, tol=1e-9):
@@ -837,6 +1087,7 @@ def _eval_part(d):
                     ev.oracle.append("raised: %s on a part with %d time point(s): %r" % (f_name, len(p._points), e))
         _nested_checks(ev, maps, head, {"bm": [t0, [t0, t0 + 1], [[t0], [0]], []], "qm": [float(t0), (t0, 0)],
                                         "ibm": [0, [0.0, 1.0], []], "iqm": [0.0, [[0, 0]]], "qdm": [t0, [t0, 0, 99], []]})
+        _arg_and_knot_checks(ev, maps, head, t0)
         ev.key = None
         return ev, p, head, maps
 
@@ -960,6 +1211,54 @@ def _eval_part(d):
         except Exception as e:
             ev.oracle.append("raised: %s(array): %r" % (inv, e))
 
+    # ---- the round trip inv(fwd(x)) as the implementation computes it, at every key point (so at both ends of the image,
+    #      where only the implementation's own forward value is guaranteed to lie inside) and just outside
+    rtx = sorted(set([k for k in keys if lo <= k <= hi] + [first, last, lo, hi] + [F(2 * h + 1, 2) for h in d["halves"][:2] if first <= h < last]))
+    rtx += [lo - 1, hi + 1]
+    for nm in ("bm", "qm"):
+        if nm not in fw:
+            continue
+        inv = "i" + nm
+        try:
+            back = [float(maps[inv](maps[nm](float(x)))) for x in rtx]
+            ev.requests.append("rt %s %s %s" % (nm, head, W.lst(W.q, rtx)))
+            ev.impl.append(("@approx", _nanlist(back), 1e-7))
+            for x, b in zip(rtx, back):
+                if first <= x <= last and not (b == b and abs(b - float(x)) <= 1e-6 * max(1.0, abs(float(x)))):
+                    ev.oracle.append("inverse: %s(%s(%s)) = %r (scalar calls)" % (inv, nm, x, b))
+                    break
+        except Exception as e:
+            ev.oracle.append("raised: %s(%s(scalar)): %r" % (inv, nm, e))
+
+    # ---- Part.quarter_durations(start, end): the stored changes with start <= time < end
+    try:
+        steps = _step_fn(dict(sp.qd))
+        mid = keys[len(keys) // 2]
+        for a, b in ((None, None), (first, last), (mid, None), (None, mid), (F(2 * mid + 1, 2), hi + 1), (0, 0), (last, first),
+                     (None, hi + 1), (0, None)):
+            rows = p.quarter_durations(a, b)
+            rows = np.asarray(rows)
+            got = [(int(r[0]), int(r[1])) for r in rows.reshape(-1, 2)]
+            ev.requests.append("qds %s %s %s" % (head, "-" if a is None else W.q(a), "-" if b is None else W.q(b)))
+            ev.impl.append(W.f_list(lambda e: W.f_tuple(W.f_int(e[0]), W.f_int(e[1])), got))
+            inside = lambda t: (a is None or a <= t) and (b is None or t < b)
+            bad = None
+            if rows.ndim != 2 or rows.shape[1] != 2:
+                bad = "has shape %r" % (rows.shape,)
+            elif any(not inside(t) for t, _ in got):
+                bad = "lists a time outside the bounds"
+            elif any(t2 <= t1 for (t1, _), (t2, _) in zip(got, got[1:])):
+                bad = "is not in time order"
+            elif any(float(maps["qdm"](t)) != q for t, q in got):
+                bad = "lists a duration that quarter_duration_map does not return at that time"
+            elif any(inside(t) and (t, q) not in got for t, q in steps):
+                bad = "misses a change of the quarter duration inside the bounds (changes: %r)" % (steps,)
+            if bad:
+                ev.oracle.append("quarter-durations: quarter_durations(%s, %s) = %r %s" % (a, b, got, bad))
+                break
+    except Exception as e:
+        ev.oracle.append("raised: quarter_durations: %r" % (e,))
+
     # ---- quarter_duration_map
     qx = list(range(0, max(hi, last, tmax) + 3)) + [-1, -5] + [F(2 * h + 1, 2) for h in d["halves"]]
     how = "" if not sp.ambiguous else " (%s reading; stored-entries %r / every-call %r / minimal %r)" % (
@@ -1031,6 +1330,8 @@ def _eval_part(d):
                                     "ibm": inv_args.get("ibm", []), "iqm": inv_args.get("iqm", []),
                                     "qdm": args + [[hi + 5, -3], np.array([[t for t, _ in sp.qd]])]})
 
+    _arg_and_knot_checks(ev, maps, head, k1)
+
     # ---- the maps of the part the model builds by itself from the history (nothing read off the real object)
     steps = d.get("hist") if d.get("hist") is not None else canonical_hist(d)
     hx = sorted(set(kin + [first, last, lo, hi]))
@@ -1070,6 +1371,33 @@ def _eval_part(d):
     ev.key = "%d|%r|%r|%r|%s|%r" % (d["q0"], d["qd"], d["ops"], sp.m1, sp.first, d.get("hist"))
     ev.info = {"late": first > 0, "qd_reading": sp.reading if sp.ambiguous else "all-agree"}
     return ev, p, head, maps
+
+
+def _arg_and_knot_checks(ev, maps, head, finite):
+    """NaN / +inf / -inf arguments (and one finite one) to all five maps, array and scalar; the knot arrays of the
+    forward interpolators where the returned object shows them (scipy's interp1d has .x / .y)"""
+    aargs = [float("nan"), float("inf"), float("-inf"), float(finite)]
+    toks = "4 nan inf -inf %s" % W.q(finite)
+    for nm in ("bm", "qm", "ibm", "iqm", "qdm"):
+        try:
+            with np.errstate(all="ignore"):
+                got = [float(v) for v in np.asarray(maps[nm](np.array(aargs)), dtype=float)]
+                sca = [float(maps[nm](a)) for a in aargs]
+        except Exception as e:
+            ev.oracle.append("raised: %s on NaN / infinite arguments: %r" % (nm, e))
+            continue
+        ev.requests.append("a%s %s %s" % (nm, head, toks))
+        ev.impl.append(("@approx", _nanlist(got), 0.0 if nm == "qdm" else 1e-9))
+        if any(not _same(u, v, 0.0) for u, v in zip(got, sca)):
+            ev.oracle.append("scalar-vs-array: %s(nan, inf, -inf, %s) = %r in an array, %r as scalars" % (nm, finite, got, sca))
+    for nm in ("bm", "qm"):
+        f = maps[nm]
+        try:
+            if hasattr(f, "x") and hasattr(f, "y") and np.ndim(f.x) == 1 and np.shape(f.x) == np.shape(f.y):
+                ev.requests.append("knots %s %s" % (nm, head))
+                ev.impl.append(("@approx", [[float(a), float(b)] for a, b in zip(f.x, f.y)], 1e-9))
+        except Exception:
+            pass  # the knots are not part of the interface; only compared when visible
 
 
 def _nested_checks(ev, maps, head, plan):
@@ -1203,6 +1531,10 @@ def distribution(descs, results):
         "parts": len(parts),
         "pairs_of_one_score": len(pairs),
         "single_or_empty": len([d for d in descs if d.get("kind") == "single"]),
+        "wrapper_called_directly": dict(Counter((r.get("info") or {}).get("lin") for r in results
+                                                if isinstance(r, dict) and (r.get("info") or {}).get("lin"))),
+        "wrapper_knot_counts": dict(Counter(len(d["xs"]) for d in descs if d.get("kind") == "lin")),
+        "almost_full_first_bar": dict(Counter(d["how"] for d in descs if d.get("kind") == "near")),
         "with_edit_query_history": sum(1 for d in parts if d.get("hist") is not None),
         "warm_up_queries": sum(sum(1 for s in d["hist"] if s[0] in ("q", "w")) for d in parts if d.get("hist") is not None),
         "qd_call_histories": dict(Counter(_call_shape(d) for d in parts)),
